@@ -338,7 +338,7 @@ theorem mem_rawPoints {flip : Bool} {xm ym : Metric} {rows : List Row} {p : Pt} 
       ∃ s ∈ sweepSteps rows, ∃ o ∈ operations flip,
         p = { x := xm.eval (stepCounts (nNeg rows) (nPos rows) s.2.1 s.2.2 o.2),
               y := ym.eval (stepCounts (nNeg rows) (nPos rows) s.2.1 s.2.2 o.2), op := ⟨o.1, s.1⟩ } := by
-  unfold rawPoints stepPoints
+  rw [rawPoints_eq]; unfold stepPoints
   simp only [List.mem_flatMap, List.mem_map]
   constructor
   · rintro ⟨s, hs, o, ho, rfl⟩; exact ⟨s, hs, o, ho, rfl⟩
